@@ -212,6 +212,19 @@ pub fn gen(rng: &mut Rng, index: u64) -> String {
     if index % 25 == 24 {
         return gen_near(rng);
     }
+    if index % 50 == 9 {
+        // point-like operands at magnitudes where squares of coordinate differences overflow (2^520) or underflow
+        // (2^-560) while the distance itself is an ordinary number: only an overflow-safe hypot gets these right
+        let s = 2f64.powi(if rng.chance(1, 2) { rng.range(515, 525) as i32 } else { -(rng.range(545, 565) as i32) });
+        let pt = |rng: &mut Rng| Coord { x: rng.range(-9, 9) as f64 * s, y: rng.range(-9, 9) as f64 * s };
+        let a = Geometry::Point(Point(pt(rng)));
+        let b = match rng.below(3) {
+            0 => Geometry::Point(Point(pt(rng))),
+            1 => Geometry::MultiPoint(MultiPoint((0..rng.range(1, 4)).map(|_| Point(pt(rng))).collect())),
+            _ => Geometry::GeometryCollection(GeometryCollection(vec![Geometry::Point(Point(pt(rng))), Geometry::Point(Point(pt(rng)))])),
+        };
+        return format!("C07.dist {} {} {}", proto::geom(&a), proto::geom(&a), proto::geom(&b));
+    }
     if index % 50 == 7 {
         // two line strings with more vertices than any indexing threshold: crossing (distance 0) or apart
         let (n1, n2) = (long_count(rng).min(200), long_count(rng).min(200));
